@@ -90,6 +90,7 @@ fn run(op: &Op) -> (u64, usize) {
             None => dg.f64(cdshealpix::largest_center_to_vertex_distance(*d, *lon, *lat)),
         },
         Op::Zh { d, lon } => dg.u64(nested::hash(*d, *lon, 2.0)),
+        Op::Zd { lon } => dg.u64(nested::hash(30, *lon, 0.5)),
         Op::Zc { d } => {
             let (lon, lat) = nested::center(*d, c20common::n_hash(*d));
             dg.f64(lon);
